@@ -50,9 +50,9 @@ def is_sentinel(x):
 
 
 # ------------------------------------------------------------------ single_thread_prefetch
-def run_st(pu, spec, B, script, schedule, rng, wall=20.0):
+def run_st(pu, spec, B, script, schedule, rng, wall=20.0, fallback='random'):
     """script: ('exhaust',) | ('close', k) | ('drop', k).  Returns a dict describing the run."""
-    s = S.Sched(schedule, rng, wall)
+    s = S.Sched(schedule, rng, wall, fallback)
     undo = S.install(pu, s)
     src = Src(s, spec)
     delivered, outcome = [], None
@@ -111,7 +111,7 @@ def run_st(pu, spec, B, script, schedule, rng, wall=20.0):
         s.cv.notify_all()
     for t in s.os_threads:
         t.join(2.0)
-    return dict(kind='st', spec=spec, B=B, script=script, schedule=list(schedule), choices=s.choices, log=s.log,
+    return dict(kind='st', spec=spec, B=B, script=script, schedule=list(schedule), choices=s.choices, enabled_log=s.enabled_log, log=s.log,
                 delivered=delivered, outcome=outcome, worker_done_at_return=worker_done_at_return,
                 pulls_after_end=src.pulls_after_end, threads_alive=sum(t.is_alive() for t in s.os_threads), K=K)
 
@@ -120,9 +120,16 @@ def st_model_trace(run):
     """event log -> [(tid, obs|None)] for ETrace.ST.replay, plus the expected summary"""
     tr = []
     q = pulled = dl = 0
+    seen_rd_exc = False
     for (th, ev, pl) in run['log']:
         if ev in ('exit', 'returned', 'died'):
             continue
+        if ev == 'rd_exc_info':
+            # `if exc_info is not None: raise exc_info[1].with_traceback(exc_info[2])` reads the cell three
+            # times after the join (no other thread exists any more): one model step (C7)
+            if seen_rd_exc:
+                continue
+            seen_rd_exc = True
         tid = 'TC' if th == 'C' else 'TW'
         if ev == 'put':
             q += 1
@@ -139,8 +146,8 @@ def st_model_trace(run):
 
 
 def coq_st_case(run, cb=True):
-    spec = coq_list([f'SOk {e[1]}' if e[0] == 'ok' else f'SFail {"true" if e[1] else "false"} {e[2]}' for e in run['spec']])
-    tr = coq_list([f'({t}, {"None" if o is None else "Some (%d, %d, %d)" % o})' for t, o in st_model_trace(run)])
+    spec = coq_list([f'PrefetchST.SOk {e[1]}' if e[0] == 'ok' else f'PrefetchST.SFail {"true" if e[1] else "false"} {e[2]}' for e in run['spec']])
+    tr = coq_list([f'(PrefetchST.{t}, {"None" if o is None else "Some (%d, %d, %d)" % o})' for t, o in st_model_trace(run)])
     K = 'None' if run['K'] is None else f'(Some {run["K"]})'
     return f'(ST.run_case {run["B"]} {K} {"true" if cb else "false"} {spec} {tr})'
 
@@ -214,8 +221,8 @@ class Fn:
         return 10 * v + 1
 
 
-def run_pool(pu, spec, B, W, bad, script, schedule, rng, wall=20.0):
-    s = S.Sched(schedule, rng, wall)
+def run_pool(pu, spec, B, W, bad, script, schedule, rng, wall=20.0, fallback='random'):
+    s = S.Sched(schedule, rng, wall, fallback)
     undo = S.install(pu, s)
     src = Src(s, spec)
     fn = Fn(s, bad)
@@ -272,7 +279,7 @@ def run_pool(pu, spec, B, W, bad, script, schedule, rng, wall=20.0):
         s.cv.notify_all()
     for t in s.os_threads:
         t.join(2.0)
-    return dict(kind='pool', spec=spec, B=B, W=W, bad=sorted(bad), script=script, schedule=list(schedule), choices=s.choices,
+    return dict(kind='pool', spec=spec, B=B, W=W, bad=sorted(bad), script=script, schedule=list(schedule), choices=s.choices, enabled_log=s.enabled_log,
                 log=s.log, delivered=delivered, outcome=outcome, calls=fn.calls, calls_after_end=fn.calls_after_end,
                 pulls_after_end=src.pulls_after_end, threads_alive=sum(t.is_alive() for t in s.os_threads), K=K)
 
@@ -302,10 +309,10 @@ def pool_model_trace(run):
                 else:
                     tr.append(('TC', (ntasks, pulled, dl, running, fin)))
             elif ev == 'result':
-                pass                                    # the model's P3/P6 step is accounted at 'deliver' / failure
+                tr.append(('TC', None))                 # P3 | P6: take the result (delivers it, or fails)
             elif ev == 'deliver':
                 dl += 1
-                tr.append(('TC', (ntasks, pulled, dl, running, fin)))
+                tr[-1] = ('TC', (ntasks, pulled, dl, running, fin))
             elif ev == 'next':
                 tr.append(('TC', None))                 # PY -> P4 | PY2 -> P5
                 if drain:
@@ -318,8 +325,8 @@ def pool_model_trace(run):
             elif ev == 'submit':
                 ntasks += 1
                 tr.append(('TC', (ntasks, pulled, dl, running, fin)))
-            elif ev == 'exit':
-                tr.append(('TC', None))
+            elif ev == 'ex_exit':
+                tr.append(('TC', None))                 # PExit -> PEnd (executor __exit__ returned)
         else:
             if ev == 'task_start':
                 running += 1
@@ -328,18 +335,12 @@ def pool_model_trace(run):
                 running -= 1
                 fin += 1
                 tr.append((f'(TFinish {pl})', (ntasks, pulled, dl, running, fin)))
-    # a task failure surfaces in result(): the model takes the P3/P6 step to PExit (Raised)
-    out = run['outcome']
-    if out and out[0] == 'raised' and out[1] == 'FnFail':
-        # insert the failing P3/P6 step before the final exit step
-        idx = max(i for i, (t, o) in enumerate(tr) if t == 'TC')
-        tr.insert(idx, ('TC', None))
     return tr
 
 
 def coq_pool_case(run):
-    spec = coq_list([f'SOk {e[1]}' if e[0] == 'ok' else f'SFail {e[2]}' for e in run['spec']])
-    tr = coq_list([f'({t}, {"None" if o is None else "Some (%d, %d, %d, %d, %d)" % o})' for t, o in pool_model_trace(run)])
+    spec = coq_list([f'Pool.SOk {e[1]}' if e[0] == 'ok' else f'Pool.SFail {e[2]}' for e in run['spec']])
+    tr = coq_list([f'({t.replace("TFinish", "Pool.TFinish") if t.startswith("(") else "Pool." + t}, {"None" if o is None else "Some (%d, %d, %d, %d, %d)" % o})' for t, o in pool_model_trace(run)])
     K = 'None' if run['K'] is None else f'(Some {run["K"]})'
     bad = coq_list([str(b) for b in run['bad']])
     return f'(PL.run_case {run["B"]} {run["W"]} {K} (PL.fn_of {bad}) {spec} {tr})'
@@ -362,7 +363,7 @@ def pool_direct(run):
             break
         seq.append(10 * a + 1)
     if seq_err is None:
-        seq_err = ('end',) if src_fail is None else ('raised', 'SrcFail', src_fail[2])
+        seq_err = ('end',) if src_fail is None else ('raised', 'SrcFail' if src_fail[1] else 'SrcFailBase', src_fail[2])
     if run['delivered'] != [10 * a + 1 for a in args][:len(run['delivered'])]:
         fails.append(('C04', f'delivered {run["delivered"]} is not an in-order prefix of the mapped source'))
     if run['K'] is None:
@@ -402,7 +403,8 @@ def pool_direct(run):
 # ------------------------------------------------------------------ generation + Coq evaluation
 HEADER = """From Coq Require Import List Arith Bool.
 Import ListNotations.
-Require Import LD.PrefetchST LD.Pool LD.ETrace.
+Require LD.PrefetchST LD.Pool.
+Require Import LD.ETrace.
 """
 
 
@@ -453,3 +455,211 @@ def eval_cases(exprs, tag, per_file=200):
                 txt = txt[:txt.rfind(':')].strip()
                 res[s + int(m.group(1))] = txt
     return res
+
+
+def dfs(runner, budget):
+    """systematic (stateless) exploration of ALL schedules of one configuration: yields every maximal
+    run exactly once, up to `budget` runs.  runner(prefix) executes the real code with the given
+    choice prefix and the 'first enabled' policy afterwards."""
+    stack = [[]]
+    n = 0
+    while stack and n < budget:
+        prefix = stack.pop()
+        run = runner(prefix)
+        n += 1
+        yield run
+        ch, en = run['choices'], run['enabled_log']
+        if ch[:len(prefix)] != prefix:
+            continue                      # the prefix was not replayable (should not happen)
+        for i in range(len(ch) - 1, len(prefix) - 1, -1):
+            for a in en[i]:
+                if a != ch[i]:
+                    stack.append(ch[:i] + [a])
+    dfs.exhausted = not stack
+
+
+def parse_summary_st(txt):
+    """'(None, ([1; 2], Some 92, false, 8, true, None))' -> dict"""
+    m = re.match(r'\((None|Some \(.*?\)), \(\[(.*?)\], (None|Some \d+), (true|false), (\d+), (true|false), (None|Some \d+)\)\)$', txt)
+    if not m:
+        return None
+    return dict(accepted=m.group(1) == 'None', mismatch=m.group(1),
+                delivered=[int(x) for x in re.findall(r'\d+', m.group(2))],
+                exc=None if m.group(3) == 'None' else int(m.group(3)[5:]), closing=m.group(4) == 'true',
+                cp=int(m.group(5)), wend=m.group(6) == 'true', died=None if m.group(7) == 'None' else int(m.group(7)[5:]))
+
+
+def parse_summary_pool(txt):
+    m = re.match(r'\((None|Some \(.*?\)), \(\[(.*?)\], (.*?), (\d+), (true|false)\)\)$', txt)
+    if not m:
+        return None
+    return dict(accepted=m.group(1) == 'None', mismatch=m.group(1),
+                delivered=[int(x) for x in re.findall(r'\d+', m.group(2))], pc=m.group(3).replace('Pool.', ''),
+                cancelled=int(m.group(4)), quiescent=m.group(5) == 'true')
+
+
+def st_summary_ok(run, sm):
+    out = run['outcome']
+    exp_exc = out[2] if out[0] == 'raised' else None
+    if run['K'] == 0:
+        return sm['cp'] == 0 and sm['delivered'] == []
+    closing = out == ('closed',)
+    # a source failure recorded by the worker but never raised (consumer closed first) is still in `exc`
+    ok = sm['delivered'] == run['delivered'] and sm['closing'] == closing and sm['wend'] and sm['cp'] == (7 if closing else 8)
+    if not closing:
+        ok = ok and sm['exc'] == exp_exc
+    return ok
+
+
+def pool_summary_ok(run, sm):
+    out = run['outcome']
+    if run['K'] == 0:
+        return sm['pc'] == 'P0' and sm['delivered'] == []
+    how = {'end': 'Normal', 'closed': 'Closed'}.get(out[0]) or f'(Raised {out[2]})'
+    ncanc = sum(1 for e in run['log'] if e[1] == 'cancelled')
+    return sm['delivered'] == run['delivered'] and sm['pc'] == f'PEnd {how}' and sm['cancelled'] == ncanc and sm['quiescent']
+
+
+# ------------------------------------------------------------------ the engine shared by C04..C07
+def _cfg_key(run):
+    return (run['kind'], tuple(run['spec']), run['B'], run.get('W'), tuple(run.get('bad', ())), run['script'])
+
+
+def _log_key(run):
+    return tuple((t, e, 'S' if is_sentinel(p) else repr(p)) for t, e, p in run['log'])
+
+
+def run_e(prop, tier, n_st=350, n_pool=350, dfs_budget=500, long_runs=30):
+    ld = common.import_impl()
+    import lazy_dataset.parallel_utils as pu
+    r = common.rng_for(prop)
+    thorough = tier == 'thorough'
+    if thorough:
+        n_st, n_pool, dfs_budget, long_runs = n_st * 12, n_pool * 12, dfs_budget * 12, long_runs * 10
+    runs = []
+    # -- random configurations and schedules
+    for _ in range(n_st):
+        spec = gen_spec(r, 6)
+        B = r.choice([1, 1, 2, 3, 4])
+        n_ok = len([e for e in spec if e[0] == 'ok'])
+        script = r.choice([('exhaust',), ('exhaust',), ('close', r.randint(0, n_ok + 1)), ('drop', r.randint(0, n_ok + 1))])
+        runs.append(run_st(pu, spec, B, script, gen_schedule(r, ['C', 'W'], 250), r))
+    for _ in range(n_pool):
+        spec = gen_spec(r, 6, 0.25)
+        W = r.choice([1, 2, 3]); B = W + r.choice([0, 0, 1, 2]); B = min(B, 4) if B >= W else W
+        oks = [e[1] for e in spec if e[0] == 'ok']
+        bad = [v for v in oks if r.random() < 0.12]
+        script = r.choice([('exhaust',), ('exhaust',), ('close', r.randint(0, len(oks) + 1)), ('drop', r.randint(0, len(oks) + 1))])
+        runs.append(run_pool(pu, spec, B, W, bad, script, gen_schedule(r, ['C'] + [f'X{i}' for i in range(W)], 300), r))
+    # -- lengths well above the buffer size, consumers that stall
+    for _ in range(long_runs):
+        n = r.randint(15, 40)
+        spec = [('ok', i + 1) for i in range(n)]
+        if r.random() < 0.5:
+            B = r.choice([1, 2, 3])
+            sch = (['W'] * r.randint(20, 200) + ['C'] * r.randint(1, 5)) * 20       # the worker gets long bursts
+            runs.append(run_st(pu, spec, B, ('exhaust',) if r.random() < 0.6 else ('close', r.randint(1, n)), sch, r, wall=40))
+        else:
+            W = r.choice([1, 2, 3]); B = W + r.choice([0, 1])
+            ths = [f'X{i}' for i in range(W)]
+            sch = []
+            for _k in range(40):
+                sch += r.choices(ths, k=r.randint(5, 40)) + ['C'] * r.randint(1, 6)
+            runs.append(run_pool(pu, spec, B, W, [], ('exhaust',) if r.random() < 0.6 else ('close', r.randint(1, n)), sch, r, wall=40))
+    n_random = len(runs)
+    # -- systematic exploration of ALL schedules of tiny configurations
+    tiny_st = [([('ok', 1)], 1, ('exhaust',)), ([('ok', 1), ('ok', 2)], 1, ('close', 1)), ([('ok', 1), ('fail', True, 91)], 1, ('exhaust',)),
+               ([('ok', 1), ('ok', 2)], 2, ('close', 1)), ([], 1, ('exhaust',)), ([('ok', 1), ('ok', 2), ('ok', 3)], 1, ('close', 2))]
+    tiny_pool = [([('ok', 1), ('ok', 2)], 1, 1, [], ('exhaust',)), ([('ok', 1), ('ok', 2)], 2, 2, [], ('close', 1)),
+                 ([('ok', 1), ('ok', 2), ('ok', 3)], 2, 2, [2], ('exhaust',)), ([('ok', 1), ('fail', True, 91)], 2, 2, [], ('exhaust',))]
+    dfs_info = []
+    per = max(20, dfs_budget // (len(tiny_st) + len(tiny_pool)))
+    for spec, B, script in tiny_st:
+        k = 0
+        for run in dfs(lambda pre: run_st(pu, spec, B, script, pre, r, fallback='first'), per):
+            runs.append(run); k += 1
+        dfs_info.append(dict(kind='st', spec=spec, B=B, script=script, runs=k, exhausted=dfs.exhausted))
+    for spec, B, W, bad, script in tiny_pool:
+        k = 0
+        for run in dfs(lambda pre: run_pool(pu, spec, B, W, bad, script, pre, r, fallback='first'), per):
+            runs.append(run); k += 1
+        dfs_info.append(dict(kind='pool', spec=spec, B=B, W=W, bad=bad, script=script, runs=k, exhausted=dfs.exhausted))
+
+    # -- direct predicates on the real runs
+    failures = []
+    direct_all = 0
+    for run in runs:
+        fs = st_direct(run) if run['kind'] == 'st' else pool_direct(run)
+        direct_all += len(fs)
+        for (p, msg) in fs:
+            if p == prop:
+                failures.append(dict(kind='schedule', summary=msg, config=_run_json(run), got_from_impl=msg))
+    # -- trace validation against the Coq model
+    exprs = [coq_st_case(x) if x['kind'] == 'st' else coq_pool_case(x) for x in runs]
+    res = eval_cases(exprs, f'{prop}_{tier}')
+    mism = []
+    for i, run in enumerate(runs):
+        sm = (parse_summary_st if run['kind'] == 'st' else parse_summary_pool)(res[i])
+        if run['outcome'] and run['outcome'][0] == 'deadlock':
+            continue
+        ok = sm is not None and sm['accepted'] and (st_summary_ok if run['kind'] == 'st' else pool_summary_ok)(run, sm)
+        if not ok:
+            mism.append((i, res[i]))
+    if mism and not failures:
+        i, txt = mism[0]
+        failures.append(dict(kind='schedule', no_input=True,
+                             theorem_or_case=f'correspondence ETrace.{"ST" if runs[i]["kind"] == "st" else "PL"}.run_case: the model does not accept the event log of the real run',
+                             summary='the real code left the behaviours of the model (trace not accepted); no input violating this property found among the explored schedules',
+                             config=_run_json(runs[i]), model_says=txt[:600]))
+    elif mism:
+        for f in failures[:3]:
+            f['model_says'] = 'trace validation also failed on %d runs' % len(mism)
+    cfgs = set(_cfg_key(x) for x in runs)
+    logs = set(_log_key(x) for x in runs)
+    cov = dict(programs=len(runs), evaluations=len(runs), distinct_nontrivial=len([1 for l in logs if len(l) >= 8]), distinct=len(logs),
+               rule='(configuration, schedule) pairs of the REAL parallel_utils code under the controlled scheduler: random and burst '
+                    'schedules over random sources (length 0..6, failures at random positions, B 1..4, W 1..3, scripts exhaust/close/drop at every k), '
+                    'long sources with stalled consumers, and stateless DFS over all schedules of tiny configurations; '
+                    'non-trivial = distinct event log with >= 8 events',
+               distinct_configurations=len(cfgs), random_runs=n_random, dfs=dfs_info,
+               outcome_histogram=dict(collections.Counter(str(x['outcome'][:2]) for x in runs)),
+               kind_histogram=dict(collections.Counter(x['kind'] for x in runs)),
+               buffer_histogram=dict(collections.Counter(x['B'] for x in runs)),
+               steps_histogram=dict(collections.Counter(min(200, len(x['log']) // 10 * 10) for x in runs)),
+               traces_validated_against_impl=len(runs), disagreements_checked=len(mism), direct_predicate_failures_all_props=direct_all,
+               samples=[dict(kind=x['kind'], spec=x['spec'], B=x['B'], script=x['script'], outcome=x['outcome'],
+                             log=[(t, e, 'S' if is_sentinel(p) else p) for t, e, p in x['log'][:30]]) for x in runs[:2] + runs[n_st:n_st + 1]],
+               exhaustive=False)
+    return dict(coverage=cov, failures=failures,
+                assumptions=['each source line of the two functions contains at most one access to shared state, so interleavings at yield-point granularity cover the real ones (CPython GIL: sequential consistency)',
+                             'queue.Queue / threading.Thread / ThreadPoolExecutor contracts as implemented by the shims in harness/sched.py',
+                             'user code (source, mapped function) terminates'])
+
+
+def _run_json(run):
+    return dict(kind=run['kind'], spec=run['spec'], B=run['B'], W=run.get('W'), bad=run.get('bad'), script=run['script'],
+                choices=run['choices'], outcome=run['outcome'], delivered=run['delivered'],
+                log=[(t, e, 'S' if is_sentinel(p) else p) for t, e, p in run['log']])
+
+
+def replay_e(payload, prop):
+    common.import_impl()
+    import lazy_dataset.parallel_utils as pu
+    c = payload['config']
+    r = random.Random(0)
+    spec = [tuple(e) for e in c['spec']]
+    if c['kind'] == 'st':
+        run = run_st(pu, spec, c['B'], tuple(c['script']), c['choices'], r, fallback='first')
+        fs = st_direct(run)
+        expr = coq_st_case(run)
+    else:
+        run = run_pool(pu, spec, c['B'], c['W'], c['bad'], tuple(c['script']), c['choices'], r, fallback='first')
+        fs = pool_direct(run)
+        expr = coq_pool_case(run)
+    res = eval_cases([expr], 'replay_e')[0]
+    sm = (parse_summary_st if run['kind'] == 'st' else parse_summary_pool)(res)
+    ok = sm is not None and sm['accepted'] and (st_summary_ok if run['kind'] == 'st' else pool_summary_ok)(run, sm)
+    print('  outcome', run['outcome'], 'delivered', run['delivered'])
+    print('  direct predicate failures:', fs)
+    print('  model accepts trace:', ok, res[:300])
+    return bool([f for f in fs if f[0] == prop]) or not ok
